@@ -50,6 +50,18 @@ p_sys_close (pint fd)
 			return -1;
 	}
 #else
-	return close (fd);
+	pint res;
+
+	res = close (fd);
+
+#  if defined (EINTR)
+	/* An interrupted close() has released the descriptor all the same on
+	 * every system but HP-UX, calling it again (here or by the caller after
+	 * a reported failure) would hit a number which may be in use again */
+	if (P_UNLIKELY (res != 0 && p_error_get_last_system () == EINTR))
+		return 0;
+#  endif
+
+	return res;
 #endif
 }
